@@ -35,6 +35,7 @@ def run(ctx: Context) -> None:
     ctx.rule(reseed, RS, ["_sequence_index", "_sequence_start"])
     ctx.rule(rseq_scalars)
     ctx.rule(plumbing)
+    ctx.rule(prime_cache)
 
 
 def _cursor_writes(f: FuncInfo, attr: str) -> list[ast.stmt]:
@@ -283,3 +284,68 @@ def plumbing(ctx: Context) -> None:
             ctx.check(str(got) == str(want), "R1.plumbing", f"{f.cls.name}.sample_batch:return",
                       "snap(lower + unit_points(batch_size, dims) * (upper - lower))",
                       f"{f.cls.name}.sample_batch returns `{str(got)[:220]}`", f, r)
+
+
+# ---------------------------------------------------------------------------------------------- prime cache
+def prime_cache(ctx: Context) -> None:
+    """The bases are the first d primes for every d asked of one sampler in any order: the cache of primes is extended by pulling
+    from an iterator *kept on the object*, so each extension must continue where the previous one stopped.  `islice(x, k)` / `next(x)` /
+    `for .. in x` call iter(x); the stream continues only if iter(x) is x (iterator protocol: `__next__`, `__iter__` returning self) or x is a
+    generator object / `iter(...)` result created once.  An iterable whose `__iter__` starts afresh (a generator method, a list) restarts at
+    the first prime on every extension and yields bases such as [2, 3, 3, 5]."""
+    prog = ctx.prog
+    mod = prog.modules["black_it.samplers.halton"]
+    pulls = []
+    for cls in [c for c in prog.classes.values() if c.module is mod]:
+        for f in cls.methods.values():
+            for c in calls_in(f.node):
+                fn = dotted(c.func) or ""
+                if fn.split(".")[-1] in ("islice", "next", "takewhile") and c.args and is_self_attr(c.args[0], f.self_name):
+                    pulls.append((cls, f, c, c.args[0].attr))
+    ctx.floor("R5", "pulls from a stored iterator in halton.py", len(pulls), 1)
+    for cls, f, node, attr in pulls:
+        ctx.analysed(f)
+        stores = prog.attr_stores(cls).get(attr, [])
+        if not stores:
+            raise AnalysisError(f"{f.loc(node)}: no store to self.{attr} found; cannot decide what is iterated")
+        # the attribute must be created once (constructor), never re-created per call
+        outside = [st for fn_, st, _ in stores if fn_.name != "__init__"]
+        ctx.check(not outside, "R5.prime-stream", f"{cls.name}.{attr}:created-once", f"self.{attr} is created in the constructor only",
+                  f"self.{attr} is re-created in {', '.join(sorted({fn_.name for fn_, _, _ in stores if fn_.name != '__init__'}))}: the prime stream restarts", f, outside[0] if outside else None)
+        for fn_, st, val in stores:
+            ok, why = _stateful_iterator(prog, fn_, val)
+            ctx.check(ok, "R5.prime-stream", f"{cls.name}.{attr}:stateful-iterator", f"self.{attr} = {src(val)[:50] if val is not None else '?'} is a stateful iterator ({why}): each extension of the cache continues the stream",
+                      f"`{src(node)[:80]}` pulls from self.{attr} = `{src(val)[:60] if val is not None else '?'}`, which is {why}: every extension of the cache starts again at the first prime, "
+                      "so a sampler asked for d and later for d' > d dimensions gets repeated / wrong bases", f, node)
+
+
+def _stateful_iterator(prog, f: FuncInfo, val: ast.expr | None) -> tuple[bool, str]:
+    if val is None:
+        return False, "unknown"
+    if isinstance(val, ast.Call):
+        fn = dotted(val.func) or ""
+        if fn == "iter" or fn.split(".")[-1] in ("count", "cycle", "chain", "islice") or isinstance(val.func, ast.Attribute) and val.func.attr == "__iter__":
+            return True, "an iterator object created once"
+        k = prog.class_of_name(f.module, fn) if fn else None
+        if k is not None:
+            it, nx = prog.lookup_method(k, "__iter__"), prog.lookup_method(k, "__next__")
+            if it is None:
+                return False, f"an instance of {k.name}, which is not iterable"
+            gen = any(isinstance(x, (ast.Yield, ast.YieldFrom)) for x in walk_scope(it.node))
+            if gen:
+                return False, f"an instance of {k.name}, whose __iter__ is a generator method (a fresh generator per iter() call)"
+            rets = [r for r in walk_scope(it.node) if isinstance(r, ast.Return)]
+            self_ret = bool(rets) and all(isinstance(r.value, ast.Name) and r.value.id == it.self_name for r in rets)
+            if self_ret and nx is not None:
+                return True, f"{k.name} implements the iterator protocol (__iter__ returns self, __next__ advances stored state)"
+            if self_ret and nx is None:
+                return False, f"an instance of {k.name}, whose __iter__ returns self but which has no __next__"
+            return False, f"an instance of {k.name}, whose __iter__ returns a new iterator on each call"
+        for t in prog.resolve_call(f, val):
+            if isinstance(t, FuncInfo) and any(isinstance(x, (ast.Yield, ast.YieldFrom)) for x in walk_scope(t.node)):
+                return True, f"the generator object returned by {t.name}()"
+    if isinstance(val, (ast.List, ast.Tuple, ast.ListComp, ast.Set, ast.Dict)):
+        return False, "a container (iteration restarts at its first element)"
+    if isinstance(val, ast.GeneratorExp):
+        return True, "a generator expression object"
+    raise AnalysisError(f"{f.loc(val)}: cannot classify `{src(val)[:60]}` as a stateful iterator or a restartable iterable")
